@@ -536,6 +536,24 @@ class G:
                 n, ts = self.pick(cands)
                 n['kind'] = 'emit_into'
                 n['target'] = self.pick(ts)
+                rest = [c for c in cands if c[0] is not n and n['target'] in c[1]]
+                if rest and self.chance(0.5):
+                    # a second consumer forwarding into the same entry point (no cycle can arise that way): one
+                    # outer element may then cause several nested emits
+                    n2, ts2 = self.pick(rest)
+                    n2['kind'] = 'emit_into'
+                    n2['target'] = n['target']
+        if pf.get('forward') and mode == 'threaded' and not feedback and self.chance(0.15):
+            # two consumers of one element that both forward into a second loop-bound pipeline: several nested
+            # emits on the loop thread within one outer blocking emit
+            a = self.add({'op': 'source'}, INT)
+            b = self.add({'op': 'source'}, INT)
+            ab = self.add({'op': 'buffer', 'up': [a], 'n': self.pick([1, 2, 5])}, INT)
+            self.add_sink(ab, mode)
+            bb = self.add({'op': 'buffer', 'up': [b], 'n': self.pick([1, 2, 5])}, INT)
+            self.add_sink(bb, mode)
+            for _ in range(self.pick([2, 2, 3])):
+                self.add({'op': 'sink', 'up': [a], 'kind': 'emit_into', 'target': b}, None)
         if pf.get('feedback_sink') and mode == 'async' and not feedback and self.chance(0.3):
             # a consumer below `latest` that reacts to an (original) element by emitting one follow-up element into
             # the entry point above it: the follow-up arrives at latest while latest is in the middle of delivering
